@@ -249,8 +249,10 @@ func cmdCheck(args []string) {
 			if writeBaseline {
 				continue
 			}
-			if len(vc.unsupported) > 0 && t.mode == "baseline" {
-				res.undecided = append(res.undecided, vc.fnName+" "+ob.Name+" (function uses unsupported construct)")
+			if len(vc.unsupported) > 0 {
+				// a contract clause that no longer evaluates (renamed local, ...) or a construct outside
+				// the supported subset: nothing about this function can be decided; never an alarm
+				res.undecided = append(res.undecided, vc.fnName+" "+ob.Name+" (undecided: "+strings.Join(vc.unsupported, "; ")+")")
 				continue
 			}
 			// failed obligation: known finding?
